@@ -622,25 +622,45 @@ class Truth:
     """path -> role at its last declaration ("out" | "vol")."""
     last_written: dict[str, str] = field(default_factory=dict)
     """path -> sha256 of what a step run wrote last."""
+    raced: dict[str, set] = field(default_factory=dict)
+    """path -> contents the user gave the file WHILE a build was running, after which no step has
+    rewritten it: StepUp hashes outputs after the command ended, so it may have recorded either."""
 
     def declare(self, model: CModel):
         self.sources = model.sources()
         self.ever_output.update(model.outputs())
 
-    def note_runs(self, runs):
+    def note_build(self, runs, external=()):
+        """Step writes of one build, and what the user wrote while it was running."""
         for run in runs:
             for path, digest in run.writes:
                 self.last_written[path] = digest
+                self.raced.pop(path, None)
+        for _, edits in external:
+            for edit in edits:
+                if edit[0] == "write":
+                    data = edit[2] if isinstance(edit[2], bytes) else str(edit[2]).encode()
+                    self.raced.setdefault(edit[1], set()).add(sha(data))
 
-    def unjustified(self, path: str, digest_before: str, *, unsafe: bool = False) -> str | None:
+    def note_runs(self, runs):
+        self.note_build(runs)
+
+    def recorded_contents(self, path: str) -> set:
+        """The contents StepUp may have recorded for the output `path`."""
+        known = set(self.raced.get(path, ()))
+        if path in self.last_written:
+            known.add(self.last_written[path])
+        return known
+
+    def unjustified(self, path: str, digest_before: str, *, unsafe: bool = False, sources=None) -> str | None:
         """Why the disappearance of the regular file `path` (content `digest_before`) is not
         covered by the property, or None."""
-        if path in self.sources:
+        if path in (self.sources if sources is None else sources):
             return "static-file-removed"
         role = self.ever_output.get(path)
         if role is None:
             return "undeclared-path-removed"
-        if role == "out" and not unsafe and self.last_written.get(path) != digest_before:
+        if role == "out" and not unsafe and digest_before not in self.recorded_contents(path):
             return "modified-output-removed"
         return None
 
